@@ -256,12 +256,22 @@ pub struct Op {
     pub b: u32,
 }
 
-pub const N_KINDS: u8 = 14;
+pub const N_KINDS: u8 = 17;
 
 pub const KIND_NAMES: [&str; N_KINDS as usize] = [
     "value-byte", "tag", "length", "truncate", "delete", "duplicate", "splice", "nest", "edge-value",
-    "swap", "raw", "make-range", "string", "as-edge",
+    "swap", "raw", "make-range", "string", "as-edge", "segment", "bit-unused", "pad-to",
 ];
+
+pub const SEGMENT: u8 = 14;
+pub const BIT_UNUSED: u8 = 15;
+pub const PAD_TO: u8 = 16;
+
+/// Kinds whose `a` / `b` parameters use 12 bits each (all others are happy
+/// with small numbers). Used by the random generators.
+pub fn wide_params(kind: u8) -> bool {
+    kind % N_KINDS == SEGMENT
+}
 
 fn pick(sel: u16, len: usize) -> usize {
     if len == 0 { 0 } else { ((sel as usize) * len) >> 16 }
@@ -443,6 +453,171 @@ const AS_PAIRS: &[(u64, u64)] = &[
     (64496, 64511),
     (5, 4),
 ];
+
+/// `segment`: number of segments.
+const SEG_COUNTS: &[usize] = &[2, 1, 2, 3, 3, 4, 8, 33];
+/// `segment`: change of the total number of value octets.
+const SEG_DELTAS: &[i32] = &[0, 1, 0, 3, -1, 43, 0, 300];
+/// `pad-to`: content lengths around the changes of the length form (and the
+/// 16 bit limits some callers rely on).
+const PAD_TARGETS: &[usize] = &[0x7f, 0x80, 0xff, 0x100, 0xffff, 0x1_0000, 0x1_0001];
+
+/// Primitive encodings that BER also allows in constructed (segmented) form.
+fn is_string_tag(tag: u8) -> bool {
+    if tag & 0x20 != 0 {
+        return false;
+    }
+    match tag & 0xc0 {
+        0x00 => matches!(tag, 0x03 | 0x04 | 0x0c | 0x12 | 0x13 | 0x14 | 0x16 | 0x17 | 0x18 | 0x1a | 0x1b | 0x1c | 0x1e),
+        // implicitly tagged values: most are strings (key identifiers, general names)
+        0x80 => tag & 0x1f != 0x1f,
+        _ => false,
+    }
+}
+
+/// Size of a definite-length TLV with a one-octet tag and `c` content octets.
+fn tl(c: usize) -> usize {
+    1 + der_len(c).len() + c
+}
+
+/// Content size of the TLV (one-octet tag, minimal length) that is exactly
+/// `total` octets long; None where the length forms leave a gap.
+fn fit(total: usize) -> Option<usize> {
+    (total.saturating_sub(10)..total.saturating_sub(1)).find(|&c| tl(c) == total)
+}
+
+/// A run of definite-length TLVs of exactly `total` octets: one primitive
+/// `tag` value of zeros, behind a NULL where a single value cannot have
+/// that size.
+fn junk_exact(tag: u8, total: usize) -> Option<Vec<u8>> {
+    if let Some(c) = fit(total) {
+        let mut v = vec![tag];
+        v.extend(der_len(c));
+        v.resize(total, 0);
+        return Some(v);
+    }
+    if total >= 4 {
+        let mut v = vec![0x05, 0x00];
+        v.extend(junk_exact(tag, total - 2)?);
+        return Some(v);
+    }
+    None
+}
+
+/// An attribute-shaped value (SEQUENCE { OID 2.5.4.99, SET { OCTET STRING of
+/// zeros, NULL ... } }) of exactly `total` octets (at least 11).
+fn junk_attr(total: usize) -> Option<Vec<u8>> {
+    for extra in 0..4usize {
+        for z in total.saturating_sub(24)..=total {
+            let set_body = 2 * extra + tl(z);
+            let seq_body = 5 + tl(set_body);
+            if tl(seq_body) != total {
+                continue;
+            }
+            let mut v = vec![0x30];
+            v.extend(der_len(seq_body));
+            v.extend_from_slice(&[0x06, 0x03, 0x55, 0x04, 0x63, 0x31]);
+            v.extend(der_len(set_body));
+            v.push(0x04);
+            v.extend(der_len(z));
+            v.resize(v.len() + z, 0);
+            for _ in 0..extra {
+                v.extend_from_slice(&[0x05, 0x00]);
+            }
+            return Some(v);
+        }
+    }
+    None
+}
+
+/// BER constructed form of a primitive string: `tag | 0x20` around the
+/// pieces of `payload` cut at `cuts` (ascending, <= payload.len()).
+/// `seg_tag` is the tag of the segments, `unused` the first content octet of
+/// a BIT STRING (goes on the last segment, all others get 0). `form`:
+/// 3 / 6 indefinite length, 5 / 6 every segment itself constructed,
+/// 7 long-form lengths on the segments.
+fn segmented(tag: u8, seg_tag: u8, unused: Option<u8>, payload: &[u8], cuts: &[usize], form: u32) -> Vec<u8> {
+    let mut body = Vec::with_capacity(payload.len() + 8 * (cuts.len() + 1));
+    let mut from = 0;
+    let n = cuts.len() + 1;
+    for i in 0..n {
+        let to = if i + 1 == n { payload.len() } else { cuts[i].min(payload.len()).max(from) };
+        let mut c = Vec::with_capacity(to - from + 1);
+        if let Some(u) = unused {
+            c.push(if i + 1 == n { u } else { 0 });
+        }
+        c.extend_from_slice(&payload[from..to]);
+        let mut seg = vec![seg_tag];
+        if form == 7 && c.len() < 0x80 {
+            seg.extend_from_slice(&[0x81, c.len() as u8]);
+        } else {
+            seg.extend(der_len(c.len()));
+        }
+        seg.extend(c);
+        if form == 5 || form == 6 {
+            seg = tlv(seg_tag | 0x20, &seg);
+        }
+        body.extend(seg);
+        from = to;
+    }
+    let mut out = vec![tag | 0x20];
+    if form == 3 || form == 6 {
+        out.push(0x80);
+        out.extend(body);
+        out.extend_from_slice(&[0, 0]);
+    } else {
+        out.extend(der_len(body.len()));
+        out.extend(body);
+    }
+    out
+}
+
+/// Constructed form of exactly `total` octets: empty OCTET STRING segments
+/// (one of them with a long-form length where the parity asks for it) in
+/// front of one segment holding `payload`.
+fn segmented_exact(tag: u8, payload: &[u8], total: usize) -> Option<Vec<u8>> {
+    let body = fit(total)?;
+    let r = body.checked_sub(tl(payload.len()))?;
+    let (k, odd) = if r % 2 == 0 { (r / 2, false) } else if r >= 3 { ((r - 3) / 2, true) } else { return None };
+    let mut out = Vec::with_capacity(total);
+    out.push(tag | 0x20);
+    out.extend(der_len(body));
+    for _ in 0..k {
+        out.extend_from_slice(&[0x04, 0x00]);
+    }
+    if odd {
+        out.extend_from_slice(&[0x04, 0x81, 0x00]);
+    }
+    out.extend(tlv(0x04, payload));
+    debug_assert_eq!(out.len(), total);
+    Some(out)
+}
+
+/// Growth of the content of `stop` when the node whose parent is `from`
+/// grows by `g` octets (the length octets in between may grow as well);
+/// mirrors `fix_parents`. None if `stop` is not an ancestor.
+fn chain_growth(nodes: &[Node], from: usize, stop: usize, g: i64) -> Option<i64> {
+    let mut delta = g;
+    let mut a = from;
+    let mut guard = 0;
+    while a != stop {
+        if a == usize::MAX || guard > 256 {
+            return None;
+        }
+        guard += 1;
+        let n = nodes[a];
+        a = n.parent;
+        if n.indefinite || n.bad_len {
+            continue;
+        }
+        let new_len = n.len as i64 + delta;
+        if new_len < 0 {
+            return None;
+        }
+        delta += der_len(new_len as usize).len() as i64 - (n.hdr - n.tag_len) as i64;
+    }
+    Some(delta)
+}
 
 fn int_content(v: u64) -> Vec<u8> {
     let b = v.to_be_bytes();
@@ -724,7 +899,7 @@ pub fn apply(d: &mut Vec<u8>, op: Op, donor: &dyn Fn(u32) -> Vec<u8>, max_len: u
                 splice(d, &nodes, i, n.content(), n.len, val, true);
             }
         }
-        _ => {
+        13 => {
             // both ends of an existing INTEGER range, or a single INTEGER
             let pairs = eligible(&nodes, |n| n.container && n.tag == 0x30);
             let mut cand: Vec<(usize, usize, usize)> = Vec::new();
@@ -751,6 +926,159 @@ pub fn apply(d: &mut Vec<u8>, op: Op, donor: &dyn Fn(u32) -> Vec<u8>, max_len: u
                     let i = el[pick(op.sel, el.len())];
                     let n = nodes[i];
                     splice(d, &nodes, i, n.content(), n.len, &int_content(if op.b % 2 == 0 { lo } else { hi }), true);
+                }
+            }
+        }
+        14 => {
+            // primitive string -> BER constructed form (1..n segments, empty
+            // segments, total length kept / grown / shrunk). Implicitly
+            // tagged strings count four times: they are few and reach
+            // decoders of their own (key identifiers, general names).
+            let mut el = eligible(&nodes, |n| is_string_tag(n.tag));
+            if el.is_empty() {
+                el = eligible(&nodes, |n| n.tag & 0x20 == 0);
+            }
+            if el.is_empty() {
+                raw(d, op);
+            } else {
+                let mut weighted = Vec::with_capacity(el.len() * 2);
+                for &i in &el {
+                    let w = if nodes[i].tag & 0xc0 == 0x80 { 4 } else { 1 };
+                    for _ in 0..w {
+                        weighted.push(i);
+                    }
+                }
+                let i = weighted[pick(op.sel, weighted.len())];
+                let n = nodes[i];
+                let content = &d[n.content()..n.end()];
+                let bits = n.tag == 0x03 && !content.is_empty();
+                let unused = if bits { Some(content[0]) } else { None };
+                let mut payload = content[if bits { 1 } else { 0 }..].to_vec();
+                let delta = SEG_DELTAS[(op.b & 7) as usize];
+                if delta > 0 {
+                    let fill = if bits { 0 } else { payload.last().copied().unwrap_or(0x61) };
+                    payload.resize(payload.len() + delta as usize, fill);
+                } else {
+                    payload.truncate(payload.len().saturating_sub((-delta) as usize));
+                }
+                let form = (op.b >> 3) & 7;
+                let nseg = SEG_COUNTS[(op.a & 7) as usize];
+                // first cut anywhere (incl. 0 and len: empty segments), the
+                // rest split evenly
+                let first = ((op.a >> 3) & 0x1ff) as usize % (payload.len() + 1);
+                let mut cuts = Vec::with_capacity(nseg);
+                if nseg > 1 {
+                    cuts.push(first);
+                    let rest = payload.len() - first;
+                    for k in 1..nseg - 1 {
+                        cuts.push(first + rest * k / (nseg - 1));
+                    }
+                }
+                // form 4: segments repeat the (implicit) tag instead of the universal one
+                let seg_tag = if n.tag == 0x03 { 0x03 } else if form == 4 { n.tag } else { 0x04 };
+                let out = segmented(n.tag, seg_tag, unused, &payload, &cuts, form);
+                if d.len() - n.total() + out.len() + 16 <= max_len {
+                    splice(d, &nodes, n.parent, n.start, n.total(), &out, true);
+                }
+            }
+        }
+        15 => {
+            // "unused bits" octet of a BIT STRING: 1..7 with those bits
+            // cleared (valid DER), or left as they are / out of range
+            let el = eligible(&nodes, |n| n.tag == 0x03 && n.len >= 1 && !n.indefinite);
+            if el.is_empty() {
+                raw(d, op);
+            } else {
+                let n = nodes[el[pick(op.sel, el.len())]];
+                let u: u8 = match op.a % 10 {
+                    x @ 0..=6 => x as u8 + 1,
+                    7 => 8,
+                    8 => 0,
+                    _ => 0xff,
+                };
+                d[n.content()] = u;
+                if n.len >= 2 && op.b % 4 != 3 && u < 8 {
+                    let last = n.end() - 1;
+                    d[last] &= 0xffu8 << u;
+                }
+            }
+        }
+        _ => {
+            // pad a constructed value so that its content length lands
+            // exactly on a length-form boundary. SETs and context-tagged
+            // values count eight times (attribute sets, explicit wrappers).
+            let el = eligible(&nodes, |n| n.tag & 0x20 != 0 && !n.bad_len);
+            if el.is_empty() {
+                raw(d, op);
+            } else {
+                let mut weighted = Vec::with_capacity(el.len() * 2);
+                for &i in &el {
+                    let t = nodes[i].tag;
+                    let w = if t == 0x31 || t & 0xc0 == 0x80 { 8 } else { 1 };
+                    for _ in 0..w {
+                        weighted.push(i);
+                    }
+                }
+                let ai = weighted[pick(op.sel, weighted.len())];
+                let a = nodes[ai];
+                let method = op.b & 3;
+                // string descendants that may be segmented (method 2)
+                let mut desc: Vec<usize> = Vec::new();
+                if method == 2 {
+                    for (i, m) in nodes.iter().enumerate().skip(ai + 1) {
+                        if m.depth <= a.depth {
+                            break;
+                        }
+                        if is_string_tag(m.tag) && m.tag != 0x03 {
+                            desc.push(i);
+                        }
+                    }
+                }
+                let start = op.a as usize % PAD_TARGETS.len();
+                for k in 0..PAD_TARGETS.len() {
+                    let target = PAD_TARGETS[(start + k) % PAD_TARGETS.len()];
+                    if target <= a.len || d.len() + (target - a.len) + 32 > max_len {
+                        continue;
+                    }
+                    let grow = target - a.len;
+                    match method {
+                        2 => {
+                            if desc.is_empty() {
+                                break;
+                            }
+                            let di = desc[(op.b >> 4) as usize % desc.len()];
+                            let dn = nodes[di];
+                            let payload = d[dn.content()..dn.end()].to_vec();
+                            let mut done = false;
+                            for g in (grow.saturating_sub(16)..=grow).rev() {
+                                if chain_growth(&nodes, dn.parent, ai, g as i64) != Some(grow as i64) {
+                                    continue;
+                                }
+                                if let Some(out) = segmented_exact(dn.tag, &payload, dn.total() + g) {
+                                    splice(d, &nodes, dn.parent, dn.start, dn.total(), &out, true);
+                                    done = true;
+                                    break;
+                                }
+                            }
+                            if done {
+                                break;
+                            }
+                        }
+                        1 => {
+                            // plain OCTET STRING of zeros in front of the first element
+                            if let Some(j) = junk_exact(0x04, grow) {
+                                splice(d, &nodes, ai, a.content(), 0, &j, true);
+                                break;
+                            }
+                        }
+                        _ => {
+                            // attribute-shaped element behind the last one
+                            if let Some(j) = junk_attr(grow) {
+                                splice(d, &nodes, ai, a.end(), 0, &j, true);
+                                break;
+                            }
+                        }
+                    }
                 }
             }
         }
